@@ -595,3 +595,63 @@ pub fn shrink(out: &Path, p0: &Program, args0: &[Val], n: usize) -> (Program, Ve
     };
     (cur, args, e, o, rounds)
 }
+
+/// Shrinks a program that a configuration fails to compile (error text containing `needle`),
+/// first-fit over the one-step reductions.  Used to prepare a small repro for a finding.
+pub fn shrink_compile_failure(out: &Path, p0: &Program, needle: &str) -> Program {
+    use cairo_lang_filesystem::ids::CrateInput;
+    use cairo_lang_sierra_generator::db::SierraGenGroup;
+    use cairo_lang_diagnostics::ToOption;
+    let dir = out.join("shrinkcfg");
+    std::fs::create_dir_all(&dir).ok();
+    let cfg = Config { opt: crate::run::OptKind::Disabled, skip_const_folding: false, match_threshold: None, gas: Some(crate::run::Solver::Linear) };
+    let mut db = crate::run::build_db(&cfg);
+    let mut counter = 0usize;
+    let mut fails = |q: &Program, db: &mut cairo_lang_compiler::db::RootDatabase| -> bool {
+        counter += 1;
+        let (src, _) = crate::crate_source(std::slice::from_ref(q));
+        let path = dir.join(format!("cand_{counter}.cairo"));
+        std::fs::write(&path, src).unwrap();
+        let Ok(inputs) = cairo_lang_compiler::project::setup_project(db, &path) else { return false };
+        let mut s = String::new();
+        let bad = cairo_lang_compiler::diagnostics::DiagnosticsReporter::write_to_string(&mut s)
+            .with_crates(&inputs)
+            .allow_warnings()
+            .check(db);
+        if bad {
+            return false;
+        }
+        let dbr = &*db;
+        let crate_ids = CrateInput::into_crate_ids(dbr, inputs);
+        let Some(prog) = dbr.get_sierra_program(crate_ids).to_option().map(|p| p.clone()) else { return false };
+        let meta = cairo_lang_sierra_to_casm::metadata::MetadataComputationConfig {
+            linear_gas_solver: true,
+            linear_ap_change_solver: false,
+            skip_non_linear_solver_comparisons: true,
+            ..Default::default()
+        };
+        match cairo_lang_runner::SierraCasmRunner::new(prog.program.clone(), Some(meta), Default::default(), None) {
+            Ok(_) => false,
+            Err(e) => format!("{e:?}").contains(needle),
+        }
+    };
+    let mut cur = p0.clone();
+    if !fails(&cur, &mut db) {
+        eprintln!("the program does not fail under the configuration");
+        return cur;
+    }
+    loop {
+        let mut progressed = false;
+        for q in reductions(&cur) {
+            if prog_size(&q) < prog_size(&cur) && fails(&q, &mut db) {
+                cur = q;
+                progressed = true;
+                break;
+            }
+        }
+        if !progressed {
+            break;
+        }
+    }
+    cur
+}
